@@ -213,7 +213,26 @@ def suite_rand(p, rng, n=40, maxlen=6):
         out.append(case("r%d" % i, p, ops, delay=d, busy=b, scribble=rng.below(2)))
     return out
 
+def suite_chunk(p):
+    """buffer lengths around the 4096-byte transfer limit, through every op that forwards a buffer"""
+    out = []
+    i = 0
+    names = ['update_frame', 'update_and_display_frame']
+    if p.three:
+        names += ['update_achromatic_frame', 'update_chromatic_frame']
+    if p.quick:
+        names += ['update_old_frame', 'update_new_frame']
+    for n in (1, 4095, 4096, 4097, 8191, 8192, 8193, 12288, 12289):
+        for nm in names:
+            out.append(case("k%d" % i, p, [['new'], [nm, buf(n, 'r', 30 + i)]]))
+            i += 1
+        out.append(case("k%d" % i, p, [['new'], ['update_partial_frame', buf(n, 'r', 50 + i), '0', '0', '8', str(n)]]))
+        i += 1
+    return out
+
 def suite(p, name, rng):
+    if name == 'chunk':
+        return suite_chunk(p)
     if name == 'basic':
         return suite_basic(p)
     if name == 'pairs':
